@@ -74,6 +74,8 @@ type ChainSpec struct {
 	// Batches are the non-empty batches the sequencing layer handed out, in order (nil = do not check the mapping).
 	Batches [][][]byte
 	CheckBatches bool
+	// Payload is the signature payload provider the chain's nodes are configured with (nil = the default one).
+	Payload types.SignaturePayloadProvider
 }
 
 // CheckChain verifies the C01 clauses on a committed chain (recomputed from the store only).
@@ -118,7 +120,11 @@ func CheckChain(st store.Store, spec ChainSpec) (height uint64, blocks []Block, 
 		if !bytes.Equal(b.H.ProposerAddress, spec.Proposer.Addr()) || !bytes.Equal(b.H.Signer.Address, spec.Proposer.Addr()) {
 			return height, blocks, failf("signed-by-proposer", "block %d names a proposer address other than the genesis proposer", h)
 		}
-		payload, err := types.DefaultSignaturePayloadProvider(&b.H.Header)
+		provider := spec.Payload
+		if provider == nil {
+			provider = types.DefaultSignaturePayloadProvider
+		}
+		payload, err := provider(&b.H.Header)
 		if err != nil {
 			return height, blocks, failf("signed-by-proposer", "block %d: %v", h, err)
 		}
@@ -127,6 +133,9 @@ func CheckChain(st store.Store, spec ChainSpec) (height uint64, blocks []Block, 
 		}
 		if !bytes.Equal(b.Sig, b.H.Signature) {
 			return height, blocks, failf("stored-signature", "block %d: stored signature record differs from the header's signature", h)
+		}
+		if spec.Payload != nil {
+			b.H.SetCustomVerifier(spec.Payload)
 		}
 		if err := b.H.ValidateBasic(); err != nil {
 			return height, blocks, failf("full-node-validation", "block %d fails basic validation: %v", h, err)
